@@ -13,7 +13,7 @@
    assignment rooted at shared state against a committed allow-list).
    The hypotheses [env_wf] are those of C12 (see Properties/C12.v). *)
 From Verif Require Import Base.Prelude Model.Pool Proofs.PoolStackProofs Proofs.PoolRunnerProofs
-  Proofs.PoolStateProofs Proofs.PoolSimProofs Proofs.PoolProofs Proofs.PoolExamples.
+  Proofs.PoolStateProofs Proofs.PoolSimProofs Proofs.PoolProofs Proofs.PoolOwnProofs Proofs.PoolExamples.
 
 (* at any point of any schedule: goroutine i has finished a prefix [dn] of its calls, their results (in order)
    are the fresh results, and the shared state is still legal *)
@@ -48,6 +48,17 @@ Theorem C11_shared_state_ok_partial :
                                          c_fault := false |} sched)).
 Proof. exact shared_state_ok. Qed.
 Print Assumptions C11_shared_state_ok_partial.
+
+(* ownership: under every schedule no goroutine ever returns to a pool an object it does not hold (c_fault stays
+   false: every entry point Puts exactly what it Got, once, on every path incl. error paths), and every runner /
+   pooled buffer identity occurs at most once among all pools and all goroutines' holdings: an object is in a
+   pool xor held by exactly one goroutine.  (No hypothesis on the interpreter is needed.) *)
+Theorem C11_ownership_partial :
+  forall (E : env) fuel nre rsizes bsizes (opss : list (list op)) (sched : list (nat * pick)),
+    let c := run_sched E fuel {| c_g := gstate0 nre rsizes bsizes; c_threads := map spawn opss; c_fault := false |} sched in
+    c_fault c = false /    forall x, (cnt x (pool_ids (c_g c)) + cnt x (held (c_threads c)) <= 1)%nat.
+Proof. exact ownership_invariant. Qed.
+Print Assumptions C11_ownership_partial.
 
 (* ---------- non-vacuity ---------- *)
 Example C11_env_wf_witness : env_wf toy_env.
